@@ -315,4 +315,194 @@ theorem writeBuffer_rc {cfg : Cfg} {m m' : Mem} {b d b' d' : Buf} {R : List Nat}
                 · exact Or.inr (Or.inl hx)
                 · exact Or.inr (Or.inr hx)
 
+/-- a fresh struct wrapped around caller memory (WriteBinary in place, WriteDirect's data node) -/
+theorem fresh_wrap_rc {cfg : Cfg} {m : Mem} {C : List Nat} (nd' : NodeS) (h : Rc m C) (h1 : nd'.recycled = 0) (h2 : nd'.origin = none)
+    (h3 : nd'.refer = 1) : Rc ((m.newNode cfg 0).1.setNode (m.newNode cfg 0).2 nd') ((m.newNode cfg 0).2 :: C) := by
+  obtain ⟨nd, g0, g1, g2, g3, g4⟩ := newNode_fresh_facts (cfg := cfg) 0 h
+  exact (newNode_rc 0 h).setNode_nochild nd' g0 g1 g4 (by rw [h1, g1]) (by rw [h2, g2]) g2 (by rw [h3, g3])
+
+theorem writeBinary_rc {cfg : Cfg} {m m' : Mem} {b b' : Buf} {n pcap : Nat} {R : List Nat} (h : Rc m (b.chain ++ R))
+    (hr : writeBinary cfg m b n pcap = some (m', b')) : Rc m' (b'.chain ++ R) := by
+  unfold writeBinary at hr
+  split at hr
+  · cases hr; exact h
+  · have h1 := h.allocBlock .caller (max pcap n)
+    generalize m.allocBlock .caller (max pcap n) = p at hr h1
+    obtain ⟨m1, cb⟩ := p
+    dsimp only at hr h1
+    split at hr
+    · split at hr
+      · cases hr
+      · have h2 := fresh_wrap_rc (cfg := cfg) { unmanaged := true, block := some cb, malloc := n, cap := pcap } h1 rfl rfl rfl
+        generalize m1.newNode cfg 0 = q at hr h2
+        obtain ⟨m2, c⟩ := q
+        cases hr
+        exact h2.tail_replaced
+    · split at hr
+      · cases hr
+      · rename_i m2 b2 hg
+        have h2 := growth_rc (b := { b with mallocSize := b.mallocSize + n }) h1 hg
+        split at hr
+        · cases hr
+        · rename_i m3 hw
+          cases hr
+          exact writeNodeMalloc_rc h2 hw
+
+theorem resetTail_rc {cfg : Cfg} {m m' : Mem} {b b' : Buf} {ms : Nat} {R : List Nat} (h : Rc m (b.chain ++ R))
+    (hr : resetTail cfg m b ms = some (m', b')) : Rc m' (b'.chain ++ R) := by
+  unfold resetTail at hr
+  split at hr
+  · cases hr; exact h
+  · split at hr
+    · cases hr
+    · have h1 := newNode_rc (cfg := cfg) 0 h
+      generalize m.newNode cfg 0 = p at hr h1
+      obtain ⟨m1, c⟩ := p
+      cases hr
+      exact h1.tail_replaced
+
+theorem bookFill_rc {m m' : Mem} {b b' : Buf} {l n : Nat} {C : List Nat} (h : Rc m C) (hr : bookFill m b l n = some (m', b')) :
+    Rc m' C ∧ b'.chain = b.chain := by
+  unfold bookFill at hr
+  split at hr
+  · cases hr
+  · split at hr
+    · cases hr
+    · rename_i wi _ _ wn hwn
+      split at hr
+      · cases hr
+      · split at hr
+        · cases hr
+        · cases hr
+          refine ⟨?_, rfl⟩
+          have h1 : Rc (match wn.block with
+              | some blk => if min n l > 0 then m.emit (.write blk (wn.lo + wn.malloc) (wn.lo + wn.malloc + min n l)) else m
+              | none => m) C := by
+            split
+            · split
+              · exact h.emit _
+              · exact h
+            · exact h
+          have hnd : (match wn.block with
+              | some blk => if min n l > 0 then m.emit (.write blk (wn.lo + wn.malloc) (wn.lo + wn.malloc + min n l)) else m
+              | none => m).nodes[wi]? = some wn := by
+            split
+            · split
+              · exact hwn
+              · exact hwn
+            · exact hwn
+          exact h1.setNode_same' { wn with malloc := min n l + wn.blen, blen := min n l + wn.blen } hnd rfl rfl rfl rfl rfl
+
+theorem bookAck_rc {cfg : Cfg} {m m' : Mem} {b b' : Buf} {bs ms n : Nat} {R : List Nat} (h : Rc m (b.chain ++ R))
+    (hr : bookAck cfg m b bs ms n = some (m', b')) : Rc m' (b'.chain ++ R) := by
+  unfold bookAck at hr
+  split at hr
+  · cases hr
+  · split at hr
+    · cases hr
+    · split at hr
+      · have h1 := (newNode_rc (cfg := cfg) ms h).tail_replaced (w := b.w)
+        obtain ⟨h2, hc⟩ := bookFill_rc h1 hr
+        rw [hc]; exact h2
+      · obtain ⟨h2, hc⟩ := bookFill_rc h hr
+        rw [hc]; exact h2
+
+theorem getBytesLoop_rc {id : Nat} : ∀ (l : List Nat) {m m' : Mem} {cnt k c : Nat} {C : List Nat},
+    Rc m C → getBytesLoop m id l cnt k = some (m', c) → Rc m' C
+  | [], m, m', cnt, k, c, C, h, hr => by simp [getBytesLoop] at hr; obtain ⟨rfl, _⟩ := hr; exact h
+  | i :: rest, m, m', cnt, k, c, C, h, hr => by
+    unfold getBytesLoop at hr
+    split at hr
+    · cases hr; exact h
+    · split at hr
+      · cases hr
+      · rename_i nd hn
+        split at hr
+        · dsimp only at hr
+          split at hr
+          · cases hr
+          · rename_i m2 c2 hl
+            cases hr
+            exact getBytesLoop_rc rest ((h.setNode_same' { nd with exposed := true } hn rfl rfl rfl rfl rfl).addView _ _ _ _ _) hl
+        · exact getBytesLoop_rc rest h hr
+
+theorem getBytes_rc {m m' : Mem} {id : Nat} {b b' : Buf} {k : Nat} {R : List Nat} (h : Rc m (b.chain ++ R))
+    (hr : getBytes m id b k = some (m', b')) : Rc m' (b'.chain ++ R) := by
+  unfold getBytes at hr
+  split at hr
+  · cases hr
+  · dsimp only at hr
+    generalize (if k = 0 then b.f - b.r else k) = k' at hr
+    split at hr
+    · cases hr
+    · rename_i m1 c hl
+      have h1 := getBytesLoop_rc _ h hl
+      split at hr
+      · split at hr
+        · cases hr
+        · split at hr
+          · cases hr
+          · rename_i i _ _ fl hn
+            cases hr
+            exact (h1.setNode_same' { fl with exposed := true } hn rfl rfl rfl rfl rfl).addView _ _ _ _ _
+      · cases hr; exact h1
+
+/-- `WriteDirect` without a split (`remain ≤ 0`): the data node is linked behind the origin -/
+theorem writeDirectAt_rc {cfg : Cfg} {m m' : Mem} {b b' : Buf} {n ecap cb oi o mm : Nat} {remain : Int} {origin : NodeS} {R : List Nat}
+    (h : Rc m (b.chain ++ R)) (hns : ¬ remain > 0) (hoi : b.chain[oi]? = some o)
+    (hr : writeDirectAt cfg m b n ecap remain cb oi o origin mm = some (m', b')) : Rc m' (b'.chain ++ R) := by
+  unfold writeDirectAt at hr
+  dsimp only at hr
+  have h1 := fresh_wrap_rc (cfg := cfg) { unmanaged := true, block := some cb, malloc := n, cap := ecap } h rfl rfl rfl
+  split at hr
+  · cases hr
+  · split at hr
+    · cases hr
+    · first
+      | (split at hr; rename_i hpos; exact absurd hpos hns)
+      | skip
+      · cases hr
+        refine h1.perm ?_
+        -- the chain with the data node inserted behind position `oi`
+        have hlt := lt_of_getElem? hoi
+        have e : b.chain = b.chain.take oi ++ o :: b.chain.drop (oi + 1) := by
+          have := List.take_append_drop oi b.chain
+          rw [List.drop_eq_getElem_cons hlt] at this
+          have ho : b.chain[oi] = o := by
+            rw [List.getElem?_eq_getElem hlt] at hoi; exact Option.some.inj hoi
+          rw [ho] at this
+          exact this.symm
+        unfold dataNode
+        generalize (m.newNode cfg 0).2 = dn
+        conv => rhs; rw [e]
+        simp only [List.append_assoc, List.cons_append, List.nil_append]
+        -- take ++ o :: dn :: drop ++ R   ~   dn :: take ++ o :: drop ++ R
+        have : (b.chain.take oi ++ (o :: dn :: (b.chain.drop (oi + 1) ++ R))).Perm
+            (dn :: (b.chain.take oi ++ (o :: (b.chain.drop (oi + 1) ++ R)))) := by
+          refine List.Perm.trans ?_ List.perm_middle
+          refine List.Perm.append_left _ ?_
+          exact List.Perm.swap _ _ _
+        exact this
+
+theorem writeDirect_rc {cfg : Cfg} {m m' : Mem} {b b' : Buf} {n ecap : Nat} {remain : Int} {R : List Nat}
+    (h : Rc m (b.chain ++ R)) (hns : ¬ remain > 0) (hr : writeDirect cfg m b n ecap remain = some (m', b')) :
+    Rc m' (b'.chain ++ R) := by
+  unfold writeDirect at hr
+  split at hr
+  · cases hr; exact h
+  · dsimp only at hr
+    have h1 := h.allocBlock .caller (max ecap n)
+    split at hr
+    · cases hr
+    · split at hr
+      · cases hr
+      · split at hr
+        · cases hr
+        · rename_i o hoi
+          split at hr
+          · cases hr
+          · split at hr
+            · cases hr
+            · exact writeDirectAt_rc h1 hns hoi hr
+
 end Netpoll.Buf.Own
